@@ -23,17 +23,39 @@ type c07Case struct {
 	Order string `json:"order"`
 }
 
-// TestVerif_C07_commits enumerates (committed base set x modification batch): the trie is
-// opened on the canonical node image of the base, modified, committed; the returned
-// NodeSet is applied to a path-scheme and to a hash-scheme copy of the base image.
-func TestVerif_C07_commits(t *testing.T) {
+// c07Rule describes the enumeration shared by the two commit steps.
+const c07Rule = "alphabets K1 (2-byte keys, deep shared prefixes), KB (2-byte, 4 root children), KB32 (32-byte) x committed base set (quick: 64 subsets x " +
+	"alternating short/long values, KB32 modifications over {untouched,v2,empty} only; thorough: all 729 assignments) x every modification in {untouched,v1,v2,empty}^6 (4096) " +
+	"applied by Update calls (step commits-update: K1; thorough also KB) or by one UpdateBatch call (step commits-batch: KB, KB32), then Commit; " +
+	"distinct = distinct (alphabet, mode, base set, new set); " +
+	"plus (commits-update), for each of the 3^6 sets of K1,K2,KB,KB32: StackTrie OnTrieNode emissions vs the nodes committed by a fresh trie vs the reference nodes"
+
+// TestVerif_C07_commits_update enumerates (committed base set x modification): the trie is
+// opened on the canonical node image of the base, modified with Update calls, committed; the
+// returned NodeSet is applied to a path-scheme and to a hash-scheme copy of the base image.
+// It also checks the streaming builder's node emissions for every set.
+func TestVerif_C07_commits_update(t *testing.T) {
 	mc.Run(t, "C07", func(r *mc.R) {
+		c07Commits(r, "update")
+		if !r.Expired() {
+			c07Emissions(r)
+		}
+	})
+}
+
+// TestVerif_C07_commits_batch is the same enumeration with the modification applied by one
+// real UpdateBatch call (alphabets with four root children, so that the concurrent path runs).
+func TestVerif_C07_commits_batch(t *testing.T) {
+	mc.Run(t, "C07", func(r *mc.R) {
+		c07Commits(r, "batch")
+	})
+}
+
+func c07Commits(r *mc.R, mode string) {
+	{
 		defer debug.SetGCPercent(debug.SetGCPercent(300))
 		allBases := mc.Pick(r, false, true)
-		r.Rule("alphabets K1 (2-byte keys, deep shared prefixes), KB (2-byte, 4 root children), KB32 (32-byte) x committed base set (quick: 64 subsets x " +
-			"alternating short/long values, KB32 modifications over {untouched,v2,empty} only; thorough: all 729 assignments) x every modification in {untouched,v1,v2,empty}^6 (4096) " +
-			"applied by Update calls (K1; thorough also KB) or by one UpdateBatch call (KB, KB32), then Commit; distinct = distinct (alphabet, mode, base set, new set); " +
-			"plus, for each of the 3^6 sets of K1,K2,KB,KB32: StackTrie OnTrieNode emissions vs the nodes committed by a fresh trie vs the reference nodes")
+		r.Rule(c07Rule)
 		r.Assume("reference = independent Yellow-Paper MPT (own RLP, hex-prefix, embedding rule): root and the exact set of stored nodes path->blob (root plus every node >= 32 bytes)")
 		r.Assume("the base store is the reference image of the base set; every commit is checked to reproduce the reference image exactly (path scheme), so by induction no other image is reachable through commits")
 		r.Assume("store semantics: path scheme = write blob at path / delete at path; hash scheme = write blob under its hash, never delete")
@@ -49,8 +71,8 @@ func TestVerif_C07_commits(t *testing.T) {
 			a    *c06Alpha
 			mode string
 		}{{c06AlphaK1(), "update"}, {c06AlphaKB(), "update"}, {c06AlphaKB(), "batch"}, {c06AlphaKB32(), "batch"}} {
-			if !allBases && cfg.a.Name == "KB" && cfg.mode == "update" {
-				continue // quick: Update histories on K1, UpdateBatch on KB/KB32
+			if cfg.mode != mode || (!allBases && cfg.a.Name == "KB" && cfg.mode == "update") {
+				continue // quick: Update calls on K1, UpdateBatch on KB/KB32
 			}
 			for _, b := range bases {
 				if !allBases && cfg.a.Name == "KB32" && !c06Alternating(b) {
@@ -181,11 +203,12 @@ func TestVerif_C07_commits(t *testing.T) {
 				r.OutcomeN(k, n)
 			}
 		})
-		if r.Expired() {
-			return
-		}
+	}
+}
 
-		// ---- streaming builder emissions == nodes committed by the regular trie == reference nodes
+// c07Emissions: streaming builder emissions == nodes committed by the regular trie == reference nodes.
+func c07Emissions(r *mc.R) {
+	{
 		type emitted struct {
 			hash common.Hash
 			blob []byte
@@ -268,7 +291,7 @@ func TestVerif_C07_commits(t *testing.T) {
 				r.OutcomeN(fmt.Sprintf("emissions:stored-nodes=%d", len(ref.nodes)), 1)
 			})
 		}
-	})
+	}
 }
 
 // TestVerif_C07_generations explores commit generations: BFS over histories of
